@@ -3,6 +3,9 @@
 package gen
 
 import (
+	"strconv"
+	"strings"
+
 	"verif/internal/prng"
 )
 
@@ -11,6 +14,9 @@ var Families = []string{
 	"empty", "one", "zeros", "zeroprefix", "run", "random", "xx", "xgapx",
 	"text", "lowent", "periodic", "altseg", "ramp", "nearrep", "sandwich", "maxrun", "randzeros", "sandwich2", "noisyrep",
 }
+
+// Special families used by dedicated cases only (they need particular sizes or dictionaries).
+var SpecialFamilies = []string{"farmarks", "farsurprise"}
 
 var words = []string{"the", "quick", "brown", "fox", "jumps", "over", "lazy", "dog", "compression", "dictionary",
 	"stream", "block", "header", "index", "lzma", "range", "coder", "and", "of", "to", "in", "a", "is", "that",
@@ -22,6 +28,24 @@ func Data(r *prng.R, family string, n int) []byte {
 		n = 0
 	}
 	b := make([]byte, n)
+	if strings.HasPrefix(family, "chunkedge:") {
+		// a 24-byte marker, zeros up to 6 MiB, then noise with one copy of the marker at the
+		// given offset of the noise: in a stream of literals that single far, long match is
+		// about as expensive as an LZMA operation gets; sweeping the offset over the place where
+		// the first chunk of noise reaches the 64 KiB compressed limit puts it at every
+		// position relative to the margin the writer keeps there
+		o, _ := strconv.Atoi(family[len("chunkedge:"):])
+		if n < 6<<20+o+24 {
+			r.Bytes(b)
+			return b
+		}
+		m := make([]byte, 24)
+		r.Bytes(m)
+		copy(b, m)
+		r.Bytes(b[6<<20:])
+		copy(b[6<<20+o:], m)
+		return b
+	}
 	switch family {
 	case "empty":
 		return []byte{}
@@ -116,6 +140,55 @@ func Data(r *prng.R, family string, n int) []byte {
 		copy(b[n-q:], text(r, q))
 	case "noisyrep":
 		noisyRep(r, b)
+	case "farmarks":
+		// zeros with pairs of identical 24-byte markers whose distance is just above every
+		// power of two and every 3*2^k that fits: a writer with a dictionary of at least n
+		// bytes has to code one match in every distance slot (including the largest ones)
+		j := 0
+		for k := uint(8); ; k++ {
+			for _, d := range []int{1<<k + 1000, 3<<(k-1) + 1000} {
+				a := 64 * j
+				if a+d+24 > n || a+24 > 1<<18 {
+					continue
+				}
+				m := make([]byte, 24)
+				r.Bytes(m)
+				copy(b[a:], m)
+				copy(b[a+d:], m)
+				j++
+			}
+			if 1<<k > n {
+				break
+			}
+		}
+	case "farsurprise":
+		// 4096 random markers, 4.5 MiB of zeros, then noise in which every 40..90 bytes a
+		// marker is repeated (18..24 bytes, more than 4 MiB back): in a stream of literals each
+		// of these matches is about as expensive as an LZMA operation can get (improbable match
+		// bit, fresh length and distance coders, 21 distance footer bits), and they fall on
+		// every position relative to the end of the 64 KiB chunks
+		const nm, ml = 4096, 24
+		if n < nm*ml+(9<<19)+1000 {
+			r.Bytes(b)
+			break
+		}
+		r.Bytes(b[:nm*ml])
+		pos := nm*ml + 9<<19
+		for pos < n {
+			l := r.Range(40, 90)
+			if pos+l > n {
+				l = n - pos
+			}
+			r.Bytes(b[pos : pos+l])
+			pos += l
+			m := r.Intn(nm) * ml
+			ln := r.Range(18, ml)
+			if pos+ln > n {
+				break
+			}
+			copy(b[pos:pos+ln], b[m:m+ln])
+			pos += ln
+		}
 	case "maxrun":
 		// periodic stretches of length p + 273*k + 1 between short pieces of text: a greedy
 		// encoder cuts its matches at the maximum length 273 and is left with a single
